@@ -810,9 +810,9 @@ func (o *Array) UnmarshalBinary(data []byte) error {
 		return errors.New("invalid ugo.Array data size")
 	}
 
-	rd := bytes.NewReader(data[1+offset : ub])
+	rd := newDataReader(data[1+offset : ub])
 	var vi varintConv
-	vi.reader = rd
+	vi.reader = rd.Reader
 
 	length, err := vi.read()
 	if err != nil {
@@ -889,10 +889,10 @@ func (o *Map) UnmarshalBinary(data []byte) error {
 		return errors.New("invalid ugo.Map data size")
 	}
 
-	rd := bytes.NewReader(data[1+offset : 1+offset+int(size)])
+	rd := newDataReader(data[1+offset : 1+offset+int(size)])
 	strBuf := bytes.NewBuffer(nil)
 	var vi varintConv
-	vi.reader = rd
+	vi.reader = rd.Reader
 	m := *o
 	if m == nil {
 		m = Map{}
@@ -1409,6 +1409,18 @@ func hasNilObject(v ugo.Object) bool {
 // there instead of being allocated with the declared size.
 func readSized(r io.Reader, prefix []byte, size int64) ([]byte, error) {
 	n := len(prefix)
+	if dr, ok := r.(*dataReader); ok {
+		// the prefix has just been read from the same data: the encoded
+		// object is the sub-slice around the current position
+		pos := len(dr.data) - dr.Len()
+		if n <= pos && size <= int64(dr.Len()) {
+			if _, err := dr.Seek(size, io.SeekCurrent); err != nil {
+				return nil, err
+			}
+			end := pos + int(size)
+			return dr.data[pos-n : end : end], nil
+		}
+	}
 	if _, ok := r.(interface{ Len() int }); ok {
 		// checkSize has compared size with the data
 		buf := make([]byte, n+int(size))
@@ -1431,6 +1443,19 @@ func readSized(r io.Reader, prefix []byte, size int64) ([]byte, error) {
 	return b.Bytes(), nil
 }
 
+// dataReader is a bytes.Reader that keeps the data it reads: the elements of
+// a container are decoded from sub-slices of the container's data instead of
+// being copied out once per nesting level, which made the memory used for
+// nested containers quadratic in the nesting depth.
+type dataReader struct {
+	*bytes.Reader
+	data []byte
+}
+
+func newDataReader(data []byte) *dataReader {
+	return &dataReader{Reader: bytes.NewReader(data), data: data}
+}
+
 // unreadBytes returns the unread portion of r without consuming it if r is a
 // *bytes.Reader or *bytes.Buffer.
 func unreadBytes(r io.Reader) ([]byte, bool) {
@@ -1441,6 +1466,8 @@ func unreadBytes(r io.Reader) ([]byte, bool) {
 		data := make([]byte, v.Len())
 		n, _ := v.ReadAt(data, v.Size()-int64(v.Len()))
 		return data[:n], true
+	case *dataReader:
+		return v.data[len(v.data)-v.Len():], true
 	}
 	return nil, false
 }
